@@ -85,10 +85,16 @@ pub fn drive_from_commandline(
 	}
 	else
 	{
+		// The command line could not be parsed, so the colour
+		// option is looked for among the raw arguments
+		let use_colors =
+			!args.iter().any(|arg| arg == "--color=off") &&
+			!args.windows(2).any(|w| w[0] == "--color" && w[1] == "off");
+
 		report.print_all(
 			&mut std::io::stderr(),
 			fileserver,
-			true);
+			use_colors);
 
 		Err(())
 	}
